@@ -1,0 +1,211 @@
+//! Hooks for the chordal analysis / decomposition checks (C17, C18).
+//! Read-only views of crate-private structures and `pub` wrappers; no solver behaviour
+//! is changed.  Vertex sets are returned sorted (set meaning, not iteration order).
+#![allow(non_snake_case)]
+
+use crate::algebra::*;
+use crate::solver::chordal::*;
+use crate::solver::implementations::default::{DefaultProblemData, DefaultSettings, DefaultVariables};
+use crate::solver::SupportedConeT;
+
+/// parent entry of a supernode: root / merged away / parent index
+pub const NO_PARENT_V: usize = NO_PARENT;
+pub const INACTIVE_NODE_V: usize = INACTIVE_NODE;
+
+/// plain-vector view of a `SparsityPattern` (its `SuperNodeTree` and `ordering`)
+#[derive(Clone, Debug)]
+pub struct TreeView {
+    pub orig_index: usize,
+    pub snode: Vec<Vec<usize>>,
+    pub separators: Vec<Vec<usize>>,
+    pub parent: Vec<usize>,
+    pub snode_post: Vec<usize>,
+    pub vertex_post: Vec<usize>,
+    pub nblk: Option<Vec<usize>>,
+    pub n_cliques: usize,
+    pub ordering: Vec<usize>,
+}
+
+fn sorted(s: &indexmap::IndexSet<usize>) -> Vec<usize> {
+    let mut v: Vec<usize> = s.iter().cloned().collect();
+    v.sort();
+    v
+}
+
+fn view(p: &SparsityPattern) -> TreeView {
+    let t = &p.sntree;
+    TreeView {
+        orig_index: p.orig_index,
+        snode: t.snode.iter().map(sorted).collect(),
+        separators: t.separators.iter().map(sorted).collect(),
+        parent: t.snode_parent.clone(),
+        snode_post: t.snode_post.clone(),
+        vertex_post: t.post.clone(),
+        nblk: t.nblk.clone(),
+        n_cliques: t.n_cliques,
+        ordering: p.ordering.clone(),
+    }
+}
+
+/// The analysis exactly as `ChordalInfo::new` runs it on problem data (A, b, cones):
+/// one view per PSD cone that was decomposed.
+pub fn analyse_problem(
+    A: &CscMatrix<f64>,
+    b: &[f64],
+    cones: &[SupportedConeT<f64>],
+    settings: &DefaultSettings<f64>,
+) -> Vec<TreeView> {
+    let info = ChordalInfo::new(A, b, cones, settings);
+    info.spatterns.iter().map(view).collect()
+}
+
+/// The analysis of a single packed-triangle mask without the "dense" / "single clique"
+/// early exits of `analyse_psdtriangle_sparsity_pattern` (used to tell which exit was taken).
+/// The diagonal must be marked in `nz_mask`.
+pub fn analyse_mask_direct(nz_mask: &[bool], merge_method: &str) -> TreeView {
+    let (L, ordering) = ChordalInfo::<f64>::verif_find_graph(nz_mask);
+    let sp = SparsityPattern::new(L, ordering, 0, merge_method);
+    view(&sp)
+}
+
+/// elimination graph and AMD ordering found for a mask (before any tree is built)
+pub fn find_graph(nz_mask: &[bool]) -> (CscMatrix<f64>, Vec<usize>) {
+    ChordalInfo::<f64>::verif_find_graph(nz_mask)
+}
+
+/// supernodal elimination tree before merging: (snode, separators, parent, snode_post, vertex_post)
+pub fn supernode_tree_unmerged(L: &CscMatrix<f64>) -> TreeView {
+    let t = SuperNodeTree::new(L);
+    TreeView {
+        orig_index: 0,
+        snode: t.snode.iter().map(sorted).collect(),
+        separators: t.separators.iter().map(sorted).collect(),
+        parent: t.snode_parent.clone(),
+        snode_post: t.snode_post.clone(),
+        vertex_post: t.post.clone(),
+        nblk: t.nblk.clone(),
+        n_cliques: t.n_cliques,
+        ordering: vec![],
+    }
+}
+
+// ---------------------------------------------------------------------------
+// DisjointSetUnion
+// ---------------------------------------------------------------------------
+pub struct Dsu(DisjointSetUnion);
+impl Dsu {
+    pub fn new(n: usize) -> Self {
+        Dsu(DisjointSetUnion::new(n))
+    }
+    pub fn union(&mut self, x: usize, y: usize) {
+        self.0.union(x, y)
+    }
+    pub fn in_same_set(&mut self, x: usize, y: usize) -> bool {
+        self.0.in_same_set(x, y)
+    }
+    pub fn root(&mut self, x: usize) -> usize {
+        self.0.verif_root(x)
+    }
+    pub fn parents(&self) -> Vec<usize> {
+        self.0.verif_parents()
+    }
+    pub fn ranks(&self) -> Vec<usize> {
+        self.0.verif_ranks()
+    }
+}
+
+// ---------------------------------------------------------------------------
+// decomposition / reversal on given data (C18)
+// ---------------------------------------------------------------------------
+
+/// `ConeMapEntry` as plain data: (orig_index, Some((tree, clique-position)))
+pub type ConeMapView = (usize, Option<(usize, usize)>);
+
+pub struct Decomposition {
+    info: ChordalInfo<f64>,
+    pub P: CscMatrix<f64>,
+    pub q: Vec<f64>,
+    pub A: CscMatrix<f64>,
+    pub b: Vec<f64>,
+    pub cones: Vec<SupportedConeT<f64>>,
+}
+
+/// Runs the analysis on (A, b, cones) and, if some cone is decomposed, the augmentation
+/// selected by `settings.chordal_decomposition_compact` on the same data.
+pub fn decompose(
+    P: &CscMatrix<f64>,
+    q: &[f64],
+    A: &CscMatrix<f64>,
+    b: &[f64],
+    cones: &[SupportedConeT<f64>],
+    settings: &DefaultSettings<f64>,
+) -> Option<Decomposition> {
+    let mut info = ChordalInfo::new(A, b, cones, settings);
+    if !info.is_decomposed() {
+        return None;
+    }
+    let (P2, q2, A2, b2, cones2) = info.decomp_augment(P, q, A, b, settings);
+    Some(Decomposition { info, P: P2, q: q2, A: A2, b: b2, cones: cones2 })
+}
+
+impl Decomposition {
+    pub fn patterns(&self) -> Vec<TreeView> {
+        self.info.spatterns.iter().map(view).collect()
+    }
+    pub fn H(&self) -> Option<CscMatrix<f64>> {
+        self.info.H.clone()
+    }
+    pub fn cone_maps(&self) -> Option<Vec<ConeMapView>> {
+        self.info
+            .cone_maps
+            .as_ref()
+            .map(|v| v.iter().map(|e| (e.orig_index, e.tree_and_clique)).collect())
+    }
+    pub fn init_dims(&self) -> (usize, usize) {
+        self.info.init_dims
+    }
+    pub fn init_cones(&self) -> Vec<SupportedConeT<f64>> {
+        self.info.init_cones.clone()
+    }
+    pub fn dim_and_overlaps(&self) -> (usize, usize) {
+        self.info.get_decomposed_dim_and_overlaps()
+    }
+    /// `decomp_reverse` on given internal vectors (x, s, z of the augmented problem)
+    pub fn reverse(
+        &self,
+        x: &[f64],
+        s: &[f64],
+        z: &[f64],
+        settings: &DefaultSettings<f64>,
+    ) -> (Vec<f64>, Vec<f64>, Vec<f64>) {
+        let mut old = DefaultVariables::<f64>::new(x.len(), s.len());
+        old.x.copy_from_slice(x);
+        old.s.copy_from_slice(s);
+        old.z.copy_from_slice(z);
+        let new = self.info.decomp_reverse(&old, &self.cones, settings);
+        (new.x, new.s, new.z)
+    }
+}
+
+/// views of the patterns held by a live solver's problem data (None if not decomposed)
+pub fn problem_patterns(data: &DefaultProblemData<f64>) -> Option<Vec<TreeView>> {
+    data.chordal_info
+        .as_ref()
+        .map(|ci| ci.spatterns.iter().map(view).collect())
+}
+/// (n, m) and cones the decomposition was built from, as recorded in the live problem data
+pub fn problem_chordal_init(
+    data: &DefaultProblemData<f64>,
+) -> Option<((usize, usize), Vec<SupportedConeT<f64>>)> {
+    data.chordal_info
+        .as_ref()
+        .map(|ci| (ci.init_dims, ci.init_cones.clone()))
+}
+
+/// packed-triangle index maps (algebra/scalarmath.rs)
+pub fn coord_to_upper_triangular_index(c: (usize, usize)) -> usize {
+    crate::algebra::coord_to_upper_triangular_index(c)
+}
+pub fn upper_triangular_index_to_coord(k: usize) -> (usize, usize) {
+    crate::algebra::upper_triangular_index_to_coord(k)
+}
